@@ -70,22 +70,24 @@ Expected(e, T, I, k, o, u) ==
 (* numerically equal hour by hour, a missing hour counting as zero *)
 SameSeries(a, b) == \A h \in DOMAIN a \cup DOMAIN b : Val(a, h) = Val(b, h)
 
-(* what building the model must raise, in the order the code computes things *)
-ExpectedRaise(T, I) ==
+(* what building the model may raise: every error condition that holds; when several hold, which one is met first    *)
+(* depends on the order in which the code visits servers and storages, which the property does not fix                  *)
+PossibleRaises(T, I) ==
     LET svs == SysServers(T)
         sts == SysStorages(T)
-    IN  IF \E v \in svs : ServerCapacityError(I, v) THEN "capacity"
-        ELSE IF \E v \in svs : FixedCountError(T, I, v) THEN "fixed-count"
-        ELSE IF \E t \in sts : NegativeStorageError(T, I, t) THEN "negative-storage"
-        ELSE IF \E t \in sts : StoFixedError(T, I, t) THEN "storage-fixed-count"
-        ELSE "none"
+    IN  (IF \E v \in svs : ServerCapacityError(I, v) THEN {"capacity"} ELSE {}) \cup
+        (IF \E v \in svs : FixedCountError(T, I, v) THEN {"fixed-count"} ELSE {}) \cup
+        (IF \E t \in sts : NegativeStorageError(T, I, t) THEN {"negative-storage"} ELSE {}) \cup
+        (IF \E t \in sts : StoFixedError(T, I, t) THEN {"storage-fixed-count"} ELSE {})
+RaiseOk(T, I, raised) == IF PossibleRaises(T, I) = {} THEN raised = "none" ELSE raised \in PossibleRaises(T, I)
+ExpectedRaise(T, I) == IF PossibleRaises(T, I) = {} THEN "none" ELSE CHOOSE r \in PossibleRaises(T, I) : TRUE
 
 CheckModel(e) ==
     LET T == Topo(e.T)
         I == e.I
         want == ExpectedRaise(T, I)
     IN
-    /\ IF e.raised # want THEN Fail(e, "raise-differs", <<"spec", want, "code", e.raised>>) ELSE TRUE
+    /\ IF ~RaiseOk(T, I, e.raised) THEN Fail(e, "raise-differs", <<"spec", PossibleRaises(T, I), "code", e.raised>>) ELSE TRUE
     /\ \A n \in DOMAIN e.obs :
          LET ob == e.obs[n] IN
          IF ob.k = "nb480" /\ (Focus = {} \/ "nb480" \in Focus) /\ ~NbAcceptable(T, I, ob.o, Ser(ob))
